@@ -140,6 +140,48 @@ theorem jaccard_correctly_rounded {a b : List Nat}
       have h3 := unionCount_le_add a b
       exact F32.div_ofNat (Nat.pos_of_ne_zero hn) hupos (by omega) hu
 
+/-! ### Value-level facts (F6–F8), `F32.val b` = the exact rational value of a bit pattern -/
+
+/-- F6. For `0 < n ≤ u < 2^24` the rounded ratio lies in `(0, 1]`. -/
+theorem roundRat_val_mem_unit {n u : ℕ} (hn : 0 < n) (hle : n ≤ u) (hu : u < 2 ^ 24) :
+    0 < F32.val (F32.roundRat n u) ∧ F32.val (F32.roundRat n u) ≤ 1 :=
+  ⟨F32.val_roundRat_pos hn (by omega) (by omega) hu, F32.val_roundRat_le_one hn hle hu⟩
+
+/-- F6. -/
+theorem roundRat_eq_one_iff {n u : ℕ} (hn : 0 < n) (hle : n ≤ u) (hu : u < 2 ^ 24) :
+    F32.roundRat n u = F32.oneBits ↔ n = u :=
+  F32.roundRat_eq_one_iff hn hle hu
+
+/-- F6. -/
+theorem roundRat_eq_zero_iff {n u : ℕ} (hu : 0 < u) (hn' : n < 2 ^ 24) (hu' : u < 2 ^ 24) :
+    F32.roundRat n u = 0 ↔ n = 0 :=
+  F32.roundRat_eq_zero_iff hu hn' hu'
+
+/-- F7. The rounded ratio is within `2^-25` of the exact one. -/
+theorem roundRat_err_unit {n u : ℕ} (hn : 0 < n) (hle : n ≤ u) (hu : u < 2 ^ 24) :
+    |F32.val (F32.roundRat n u) - (n : ℚ) / u| ≤ 1 / 2 ^ 25 :=
+  F32.roundRat_err_unit hn hle hu
+
+/-- F7 (general form): half an ulp of the binade of the exact ratio. -/
+theorem roundRat_err {num den : ℕ} (hn : 0 < num) (hd : 0 < den)
+    (he1 : -126 ≤ F32.ratExp num den) (he2 : F32.ratExp num den ≤ 126) :
+    |F32.val (F32.roundRat num den) - (num : ℚ) / den| ≤ 2 ^ (F32.ratExp num den - 24) :=
+  F32.roundRat_err hn hd he1 he2
+
+/-- F8. Rounding is monotone (for the operand range of the distance kernel). -/
+theorem roundRat_mono {n u n' u' : ℕ} (hn : 0 < n) (hu : 0 < u) (hn' : 0 < n') (hu' : 0 < u')
+    (bn : n < 2 ^ 24) (bu : u < 2 ^ 24) (bn' : n' < 2 ^ 24) (bu' : u' < 2 ^ 24)
+    (h : (n : ℚ) / u ≤ (n' : ℚ) / u') :
+    F32.val (F32.roundRat n u) ≤ F32.val (F32.roundRat n' u') := by
+  obtain ⟨e1, e2⟩ := F32.ratExp_range hn hu bn bu
+  obtain ⟨e1', e2'⟩ := F32.ratExp_range hn' hu' bn' bu'
+  exact F32.roundRat_mono hn hu hn' hu' (by omega) (by omega) (by omega) (by omega) h
+
+/-- F8 (strict). -/
+theorem roundRat_succ_den_lt {n u : ℕ} (hn : 0 < n) (hle : n ≤ u) (hu : u + 1 < 2 ^ 23) :
+    F32.val (F32.roundRat n (u + 1)) < F32.val (F32.roundRat n u) :=
+  F32.roundRat_succ_den_lt hn hle hu
+
 /-! ### Non-vacuity -/
 
 example : unionCount [1, 2, 3] [2, 3, 4] = 4 := by decide +kernel
@@ -153,5 +195,11 @@ example : jaccardBits [1, 2] [1, 2, 3] = 0x3EAAAAAB := by decide +kernel
 example : jaccardSpecBits (symmDiff ([1, 2] : List Nat).toFinset [1, 2, 3].toFinset).card
     (([1, 2] : List Nat).toFinset ∪ [1, 2, 3].toFinset).card = 0x3EAAAAAB := by decide +kernel
 example : castDtype 'u' 8 = some 8 ∧ castDtype 'f' 4 = none ∧ castDtype 'i' 1 = none := by decide
+
+-- the hypotheses of F5 are satisfiable
+example : jaccardBits [1, 2] [1, 2, 3] =
+    jaccardSpecBits (symmDiff ([1, 2] : List Nat).toFinset [1, 2, 3].toFinset).card
+      (([1, 2] : List Nat).toFinset ∪ [1, 2, 3].toFinset).card :=
+  jaccard_correctly_rounded (by decide) (by decide) (by decide +kernel)
 
 end GambitV.C02
